@@ -7,12 +7,12 @@ from schedule import schedule
 
 EXPLANATION = (
     "R1: the server-side event chain send_or_buffer -> send_buffered -> resend_locally runs after send_replication in "
-    "ServerSet::Send and buffered events are flushed only when the tick changed. R2: every dependent event is stamped with the "
+    "ServerSet::Send and buffered events are flushed only when the tick changed; buffered events leave the buffer only through send_buffered (closed set of callers of send_all and of the draining methods). R2: every dependent event is stamped with the "
     "recipient's own update tick, which send_messages sets to the current tick exactly when an update message is sent to that "
     "client; re-serialisation uses the requested tick. R3: on the client an event reaches user code only if it is independent, "
     "or its tick is not ahead of the update tick, or it was released from the queue by pop_if_le(update_tick); events ahead of "
     "the update tick go to the queue and nowhere else. R4: client events are received after receive_replication in the same "
-    "set, triggers after events, with the current ServerUpdateTick. R5: an event whose entities cannot be mapped is refused.")
+    "set, triggers after events, with the current ServerUpdateTick. R5: an event whose entities cannot be mapped is refused: the wrapper succeeds only when the record of unmapped entities is empty, the record is erased only by the wrapper (closed writer set) and is tested and emptied before every exit, also when the inner (de)serialiser fails (D18, found and fixed).")
 NOT_DECIDED = "that the stamped tick is late enough for every emission point and every interleaving of channels (histories)"
 TRUSTED_BASE = ["Bevy runs chained systems in order and `after` constraints within one schedule", "BTreeMap::first_entry returns the smallest key"]
 
@@ -43,6 +43,16 @@ def r1_server_order(ctx):
     sr = S.system("server::send_replication")
     ctx.check(len(sr) == 1 and any("resource_changed<" in c and "ServerTick" in c for c in sr[0]["run_if"]) and sr[0]["schedule"] == sb["schedule"],
               "send_replication/same-tick-gate", "", "send_replication and send_buffered are gated differently")
+    # buffered (tick-dependent) events leave the buffer only through that system: a flush from anywhere else (an observer, a
+    # connection handler) stamps them with a tick whose replication has not been sent yet
+    F = ctx.F
+    callers = sorted({b.path for b in F.real_fns() if "::tests::" not in b.path for _, t in b.calls() if callee_decl(t).endswith("BufferedServerEvents::send_all")})
+    ctx.check(callers == ["bevy_replicon::server::event::send_buffered"], "BufferedServerEvents::send_all/only-from-send_buffered", "",
+              "buffered events are flushed from %s" % [short(c) for c in callers], "single caller")
+    drains = sorted({b.path for b in F.real_fns() if "::tests::" not in b.path and (b.j.get("impl_self_adt") or "").endswith("BufferedServerEvents")
+                     for _, t in b.calls() if callee_decl(t).rsplit("::", 1)[-1] == "drain"})
+    ctx.check(set(drains) <= {"bevy_replicon::shared::event::server_event::BufferedServerEvents::send_all", "bevy_replicon::shared::event::server_event::BufferedServerEvents::clear"},
+              "BufferedServerEvents/drained-only-by-send_all-and-clear", "", "the buffer is drained by %s" % [short(d) for d in drains])
 
 
 def r2_stamping(ctx):
@@ -254,16 +264,62 @@ def r4_client_order(ctx):
         ctx.check(ok, "client::event::receive/passes-current-update-tick", site_of(rv, bb), "the gate tick is not the ServerUpdateTick resource")
 
 
+def unmapped_record_does_not_leak(ctx, fn_suffix, label):
+    """The record of entities that could not be mapped is per event: when the (de)serialising wrapper returns - also when the inner
+    function failed - the record is known to be empty (tested empty, or cleared). A left-over entry makes the *next* event of the
+    frame look unmappable, so a perfectly valid event is refused."""
+    F = ctx.F
+    b = ctx.fn(fn_suffix)
+    tr = tracer(b)
+
+    def on_record(op):
+        return any(any(e[0] == "f" and e[2] == "invalid_entities" for e in x.path) for x in tr.operand(op))
+    clears = [bb for bb, t in b.calls() if callee_decl(t).rsplit("::", 1)[-1] in ("clear", "drain", "take") and t.get("args") and on_record(t["args"][0])]
+    empties = []
+    for bb in b.reach:
+        if b.blocks[bb].term["t"] != "switch":
+            continue
+        c = switch_cond(b, bb)
+        if c["kind"] == "boolcall" and c["name"].endswith("::is_empty") and on_record(c["args"][0]):
+            for (tb, lab) in b.succ[bb]:
+                if edge_outcome(F, b, bb, lab, c) is True:
+                    empties.append(tb)
+    ctx.check(bool(clears) and bool(empties), "%s/checks-and-clears-the-record" % label, site_of(b), "%d clears / %d emptiness tests of invalid_entities" % (len(clears), len(empties)))
+    leaking = [e for e in b.exits() if b.reachable_avoiding(e, (), removed_blocks=tuple(clears + empties))]
+    ctx.check(not leaking, "%s/record-does-not-outlive-the-event" % label, site_of(b),
+              "`%s` can return (e.g. through `?` when the inner function fails) without the record of unmapped entities having been tested empty or cleared: entries recorded for this "
+              "event make the next event of the frame look unmappable, and a valid event is refused" % short(b.path))
+
+
+def success_only_when_all_mapped(ctx, fn_suffix, label, msg):
+    """Every result of the wrapper that may be a success (anything written to the return place that is not an `Err(..)` built here)
+    lies behind the `record is empty` outcome."""
+    F = ctx.F
+    b = ctx.fn(fn_suffix)
+    tr = tracer(b)
+    sites = []
+    for bb, i, st in b.statements():
+        if st["s"] == "assign" and st["place"] == {"l": 0, "p": []}:
+            rv = st["rvalue"]
+            if rv["rv"] == "agg" and rv.get("variant") == "Err":
+                continue
+            sites.append(bb)
+    for bb, t in b.calls():
+        d = t.get("dest")
+        if d and d == {"l": 0, "p": []} and not callee_decl(t).endswith("FromResidual::from_residual"):
+            sites.append(bb)
+    ctx.check(bool(sites), "%s/success-sites" % label, site_of(b), "no result site found")
+    for bb in sorted(set(sites)):
+        g = [(c, o) for (_, c, o) in required_outcomes(F, b, bb) if c["kind"] == "boolcall" and c["name"].endswith("::is_empty")]
+        ok = any(o == {True} and any(x.path and x.path[-1][2] == "invalid_entities" for x in tr.operand(c["args"][0])) for c, o in g)
+        ctx.check(ok, ctx.nth("%s/ok-only-when-all-mapped" % label), site_of(b, bb), msg)
+
+
 def r5_mapping(ctx):
     F = ctx.F
     de = ctx.fn("server_event::ServerEvent::deserialize")
     tr = tracer(de)
-    oks = [(bb, i, s) for bb, i, s in de.statements() if s["s"] == "assign" and s["place"] == {"l": 0, "p": []} and s["rvalue"]["rv"] == "agg" and s["rvalue"].get("variant") == "Ok"]
-    ctx.check(len(oks) == 1, "ServerEvent::deserialize/ok-site", site_of(de), "%d Ok(..) results" % len(oks))
-    for bb, i, s in oks:
-        g = [(c, o) for (_, c, o) in required_outcomes(F, de, bb) if c["kind"] == "boolcall" and c["name"].endswith("::is_empty")]
-        ok = any(o == {True} and any(x.path and x.path[-1][2] == "invalid_entities" for x in tr.operand(c["args"][0])) for c, o in g)
-        ctx.check(ok, "ServerEvent::deserialize/ok-only-when-all-mapped", site_of(de, bb), "an event with unmapped entities is accepted")
+    success_only_when_all_mapped(ctx, "server_event::ServerEvent::deserialize", "ServerEvent::deserialize", "an event with unmapped entities is accepted")
     for ctxname in ("ClientReceiveCtx", "ClientSendCtx"):
         gm = [b for p, b in F.fns.items() if p.startswith("<bevy_replicon::shared::event::ctx::%s<'_> as bevy_ecs::entity::map_entities::EntityMapper>::get_mapped" % ctxname)]
         if not gm:
@@ -307,6 +363,7 @@ def r5_mapping(ctx):
                     n_er += 1
                     ctx.bad("%s/invalid_entities-overwritten" % short(p), "%s (%s)" % (b.path, st.get("span", "")), "the record of unmapped entities is overwritten")
     ctx.check(n_er >= 2, "invalid_entities/erasing-writers", "", "only %d erasing writers of the unmapped-entity records found (expected the two after-refusal clears)" % n_er)
+    unmapped_record_does_not_leak(ctx, "server_event::ServerEvent::deserialize", "ServerEvent::deserialize")
     # refusal relies on the map holding no stale entries: a despawn record always unmaps (same rule as C03.R5)
     import rules.C03 as C03
     C03.apply_despawn_unmaps(ctx)
